@@ -1,5 +1,6 @@
 import UtilModel.CContainer.Proofs
 import UtilModel.CContainer.Monitors
+import UtilModel.CContainer.Sim
 /-!
 # ccontainer.CContainer — property theorems (C15)
 
@@ -90,7 +91,7 @@ theorem wait_returns_held_value (es : List Ev) (s : St) (t : Nat) (r : WRes)
   | some s' =>
     have hth := retWait_from sm s' t r hst
     obtain ⟨es1, e, es2, s0, s1, g1, g2, g3, g4, g5, _⟩ :=
-      model.run_first_flip (fun s => s.th[t]? = some (.wRet r)) model.init sm es hrun
+      Broadcast.run_first_flip model (fun s => s.th[t]? = some (.wRet r)) model.init sm es hrun
         (by simp [model]) hth
     rcases step_wRet s0 s1 e t r g3 g5 g4 with ⟨k, he, hw, hv, hres⟩ | ⟨hb, _⟩ | ⟨_, ech, _, hres⟩
     · rcases hres with ⟨hev, hrk⟩ | ⟨_, hrk⟩
@@ -117,7 +118,7 @@ theorem wait_canceled_only_if_fired (es : List Ev) (s : St) (t : Nat)
   | some s' =>
     have hth := retWait_from sm s' t .canceled hst
     obtain ⟨es1, e, es2, s0, s1, g1, g2, g3, g4, g5, _⟩ :=
-      model.run_first_flip (fun s => s.th[t]? = some (.wRet .canceled)) model.init sm es hrun
+      Broadcast.run_first_flip model (fun s => s.th[t]? = some (.wRet .canceled)) model.init sm es hrun
         (by simp [model]) hth
     rcases step_wRet s0 s1 e t .canceled g3 g5 g4 with ⟨k, _, _, _, hres⟩ | ⟨_, _, hcx⟩ | ⟨_, ech, hech, hres⟩
     · rcases hres with ⟨_, hrk⟩ | ⟨_, hrk⟩
@@ -125,7 +126,7 @@ theorem wait_canceled_only_if_fired (es : List Ev) (s : St) (t : Nat)
       · cases hrk
     · left
       obtain ⟨fs1, e', fs2, u0, u1, k1, _, k3, k4, k5, _⟩ :=
-        model.run_first_flip (fun s => s.cx.contains t = true) model.init s0 es1 g2
+        Broadcast.run_first_flip model (fun s => s.cx.contains t = true) model.init s0 es1 g2
           (by simp [model]) hcx
       have := step_cx u0 u1 e' t k3 k5 (by simpa using k4)
       subst this
@@ -135,7 +136,7 @@ theorem wait_canceled_only_if_fired (es : List Ev) (s : St) (t : Nat)
       · cases hrk
       · have hQ : echHas (fun c => c.closed = true) s0.th t := ⟨ech, hech, hcl⟩
         obtain ⟨fs1, e', fs2, u0, u1, k1, _, k3, k4, k5, _⟩ :=
-          model.run_first_flip (fun s => echHas (fun c => c.closed = true) s.th t) model.init s0 es1 g2
+          Broadcast.run_first_flip model (fun s => echHas (fun c => c.closed = true) s.th t) model.init s0 es1 g2
             (by intro ⟨c, hc, _⟩; simp [model] at hc) hQ
         obtain ⟨c, _, hnc, hcase⟩ := step_echHas (fun c => c.closed = true) (by simp)
           (by intro c rest _ hp; exact hp) u0 u1 e' t k3 k5 k4
@@ -158,7 +159,7 @@ theorem wait_err_only_if_fired (es : List Ev) (s : St) (t err : Nat)
   | some s' =>
     have hth := retWait_from sm s' t (.err err) hst
     obtain ⟨es1, e, es2, s0, s1, g1, g2, g3, g4, g5, _⟩ :=
-      model.run_first_flip (fun s => s.th[t]? = some (.wRet (.err err))) model.init sm es hrun
+      Broadcast.run_first_flip model (fun s => s.th[t]? = some (.wRet (.err err))) model.init sm es hrun
         (by simp [model]) hth
     rcases step_wRet s0 s1 e t (.err err) g3 g5 g4 with ⟨k, he, hw, _, hres⟩ | ⟨hb, _⟩ | ⟨_, ech, hech, hres⟩
     · right
@@ -176,7 +177,7 @@ theorem wait_err_only_if_fired (es : List Ev) (s : St) (t err : Nat)
           | cons a r => simp [hq'] at hq; simp [hq]
         have hQ : echHas (fun c => some err ∈ c.q) s0.th t := ⟨ech, hech, hmem⟩
         obtain ⟨fs1, e', fs2, u0, u1, k1, _, k3, k4, k5, _⟩ :=
-          model.run_first_flip (fun s => echHas (fun c => some err ∈ c.q) s.th t) model.init s0 es1 g2
+          Broadcast.run_first_flip model (fun s => echHas (fun c => some err ∈ c.q) s.th t) model.init s0 es1 g2
             (by intro ⟨c, hc, _⟩; simp [model] at hc) hQ
         obtain ⟨c, _, hnc, hcase⟩ := step_echHas (fun c => some err ∈ c.q) (by simp)
           (by intro c rest hq hp; rw [hq]; simp at hp ⊢; exact hp) u0 u1 e' t k3 k5 k4
@@ -232,6 +233,21 @@ theorem wait_quiescent_none_true (es : List Ev) (s : St) (h : model.run model.in
   simp only [ht, TS.quiet] at this
   simp at this
   exact wait_parked_open_false es s h t k e ch ht this.1.1
+
+/-! ## observable form -/
+
+/-- **C15 (observable form).** Every observable trace of the CContainer model — every number of
+writers and waiters, every interleaving, both equalities — is accepted by the monitor `monC15` that
+the driver also evaluates on histories recorded from the real code: atomic-cell bounds (values that
+may have been held; increment counting), returned values satisfy their condition and were held,
+errors only from a source that fired, no satisfied waiter at quiescence. With `accepts_sound`:
+every implementation history the model accepts satisfies C15 in its observable form. -/
+theorem C15_obs (es : List Ev) (s : St) (h : model.run model.init es = some s) :
+    monC15.accepts (es.filterMap model.obs) = true :=
+  monitor_accepts_of_simulation model monC15 RelC relC_init
+    (fun s e s' ms hR hs => by
+      have h := c15_sim_step s e s' ms hR hs
+      cases e <;> exact h) es s h
 
 /-! ## the model can do something -/
 
